@@ -397,6 +397,7 @@ func (ol *osLayer) active() []osScanner {
 }
 
 func runOsOwned(r *hx.Run, rnd *hx.Rand, cfg hx.Config) error {
+	runOsOwnedPatterns(r, rnd.Fork())
 	for i := 0; i < cfg.N(10, 120) && !r.Stop(); i++ {
 		kind := []string{"sqlite", "ndb", "bdb"}[i%3]
 		ol, err := genOsLayer(rnd, cfg, kind)
@@ -469,6 +470,47 @@ func runOsOwned(r *hx.Run, rnd *hx.Rand, cfg hx.Config) error {
 		}
 	}
 	return nil
+}
+
+// runOsOwnedPatterns replays the recorded finding os-owned-files-outside-patterns: the rpm
+// package only remembers the owned files that match its own list of patterns (jar,
+// site-packages/*.egg-info/PKG-INFO, package.json, gemspec, /usr/bin, /usr/sbin,
+// /usr/libexec/*/); what the language scanners look at is wider.
+func runOsOwnedPatterns(r *hx.Run, rnd *hx.Rand) {
+	gob := goBinary(rnd, goInfo{goVersion: "go1.21.5", path: "example.com/o/cmd", mainPath: "example.com/o", mainVersion: "v1.0.0"})
+	files := []osCand{
+		{path: "opt/app/lib/python3.9/site-packages/owned-2.0.dist-info/METADATA", data: []byte("Metadata-Version: 2.1\nName: owned\nVersion: 2.0\n"), eco: "python"},
+		{path: "usr/share/tomcat/webapps/owned-1.0.war", data: renderJar(rnd, "org.example", "owned", "1.0"), eco: "java"},
+		{path: "usr/lib/golang/bin/go", data: gob, eco: "gobin", mode: 0o755},
+		{path: "usr/libexec/docker/cli-plugins/docker-compose", data: gob, eco: "gobin", mode: 0o755},
+	}
+	owner := rpmPkg{name: "owner", version: "1", release: "1", arch: "x86_64", srpm: "owner-1-1.src.rpm"}
+	var ents []ent
+	for _, c := range files {
+		ents = append(ents, ent{path: c.path, data: c.data, mode: c.mode})
+		j := strings.LastIndexByte(c.path, '/')
+		owner.dirs = append(owner.dirs, "/"+c.path[:j+1])
+		owner.bases = append(owner.bases, c.path[j+1:])
+		owner.dirIdx = append(owner.dirIdx, int32(len(owner.dirs)-1))
+	}
+	ents = append(ents, ent{path: "var/lib/rpm/Packages.db", data: rpmNdb([][]byte{owner.blob()})})
+	var reported, silent []string
+	for _, sc := range osScanners() {
+		got, _, ok := scanLang(sc.s, ents)
+		for _, c := range files {
+			if c.eco != sc.eco {
+				continue
+			}
+			if _, rep := got[c.path]; rep && ok {
+				reported = append(reported, c.path)
+			} else {
+				silent = append(silent, c.path)
+			}
+		}
+	}
+	if len(reported) > 0 {
+		r.KnownSeen("os-owned-files-outside-patterns", fmt.Sprintf("files owned by rpm package owner-1-1 (Packages.db) are reported by the language scanners: %v (not reported: %v)", reported, silent))
+	}
 }
 
 func parkPoints(rnd *hx.Rand, K, n int) []int {
